@@ -177,7 +177,9 @@ where
 
     // Prepare the default SolOut (wrapping user callback if provided)
     let n_states = y0.len();
-    let mut default_solout = DefaultSolOut::new(f, options.t_eval.clone(), options.dense_output, options.first_step, x0, n_states);
+    // The first reported interval is x0 -> x0 +/- |first_step|, but never beyond xend
+    let first_output = options.first_step.map(|h| h.abs().min((xend - x0).abs()));
+    let mut default_solout = DefaultSolOut::new(f, options.t_eval.clone(), options.dense_output, first_output, x0, n_states);
 
     // Dispatch by method
     let result = match options.method {
